@@ -34,7 +34,7 @@ func run(c *vkit.Collector, rng *vkit.Rng, budget int) {
 	s.leafFns(budget)
 	s.siblings(budget)
 
-	for k := 0; k < 3000*budget; k++ {
+	for k := 0; k < 6000*budget; k++ {
 		s.guard("CellUnion.Normalize", func() {
 			in, class := g.union(60)
 			s.union1(in, class)
@@ -44,23 +44,23 @@ func run(c *vkit.Collector, rng *vkit.Rng, budget int) {
 		})
 	}
 	s.guard("CellUnion.IsValid", func() { s.invalidUnions(150 * budget) })
-	for k := 0; k < 3000*budget; k++ {
+	for k := 0; k < 6000*budget; k++ {
 		s.guard("CellUnion.binary", func() {
 			x, y, class := g.pair(60)
 			s.pair1(x, y, class, k%3 == 0)
 		})
 	}
-	for k := 0; k < 1500*budget; k++ {
+	for k := 0; k < 3000*budget; k++ {
 		s.guard("CellUnion.FromRange", s.range1)
 	}
-	for k := 0; k < 3000*budget; k++ {
+	for k := 0; k < 6000*budget; k++ {
 		s.guard("CellID.MaxTile", s.maxTile1)
 	}
-	for k := 0; k < 500*budget; k++ {
+	for k := 0; k < 1000*budget; k++ {
 		s.guard("CellIndex", s.index1)
 	}
 	s.guard("s2intersect.Find", s.findFixed)
-	for k := 0; k < 800*budget; k++ {
+	for k := 0; k < 1500*budget; k++ {
 		s.guard("s2intersect.Find", s.find1)
 	}
 	t.flush()
